@@ -58,8 +58,10 @@ def intersect_halfplanes(halfplanes):
     points : list
         Points of the polygon.
     """
-    # reserve more space than required, there might be duplicates
-    points = np.empty((3 * len(halfplanes), 2))
+    # there is at most one intersection point per pair of halfplanes (nearly
+    # coinciding halfplanes of similar tetrahedra produce many valid ones)
+    n_halfplanes = len(halfplanes)
+    points = np.empty((n_halfplanes * (n_halfplanes - 1) // 2 + 1, 2))
     n_intersections = 0
     for i in range(len(halfplanes)):
         for j in range(i + 1, len(halfplanes)):
